@@ -25,6 +25,9 @@ def run(s):
     vb = B.install(with_models(new_verifier()))
     for cname in B.METHODS:
         tasks.append(task(vb, f"base-class[{cname}]", lambda cname=cname: B.obligations(vb, cname)))
+    vt = B.install(with_models(new_verifier()))
+    vt.inline |= {"soundevent.data.compat.key_from_term", "soundevent.data.compat.term_from_key"}
+    tasks.append(task(vt, "base-class[TagAdapter.get_id]", lambda: B.tag_obligations(vt)))
     s.attempt_all(tasks)
     s.attempt("tables", lambda: tables(s, v))
     s.min_obligations = 50
@@ -39,8 +42,10 @@ def finish(s):
         "DataAdapter base-class contract (to_aoef registers the object under its key and returns the stored AOEF object; get_id does not "
         "register for output; from_id returns the registered object; values() lists the store in insertion order): the generic uuid-keyed "
         "bodies of adapters.py are verified against contracts/adapters.py by C02 (whole-store postconditions with a universal probe key); "
-        "still assumed: that the ghost predicate `missing` used at call sites is the complement of that store membership, TagAdapter's "
-        "integer ids (len(mapping): distinctness needs the invariant ids = 0..n-1, not proved), abstract assemble_* as uninterpreted functions",
+        "TagAdapter.get_id with its own key / id functions is verified under the representation invariant `ids in order` (the i-th key "
+        "registered has id i: ids distinct, equal (label, value) pairs share an id); "
+        "still assumed: that the ghost predicate `missing` used at call sites is the complement of that store membership, that the "
+        "invariant holds initially (empty mapping) and that nothing else writes the stores, abstract assemble_* as uninterpreted functions",
         "structural induction over the adapter dependency DAG (load-side hypothesis at a node from its successors + load-order obligations): a fixed proof schema, not an SMT obligation",
         "pydantic construction contract; JSON layer (model_dump_json / model_validate_json identity on AOEF trees): stand-in only",
         "preconditions from the property's quantifier: simple-label terms, feature labels distinct per list, embedded objects valid",
